@@ -323,7 +323,9 @@ def main():
     for pid in ALL:
         if pid not in CLAIMED:
             continue
-        c = CLAIMED[pid]
+        c = dict(CLAIMED[pid])
+        if pid in HISTORIES:
+            c['text'] = c['text'].rstrip() + ' ' + HISTORIES[pid]
         checks.append({
             'property_id': pid,
             'quick_cmd': './check %s --tier quick' % pid,
@@ -368,6 +370,26 @@ def main():
 
 
 NOT_APPLICABLE = {}
+
+# history instances added after the black-box rounds 6 and 7 (DESIGN.md 8.10, 8.11): what is decided about state that
+# survives between calls
+HISTORIES = {
+    'C01': 'History: one numpy array with an imaginary mode handed to two vibrational models (setter and constructor) - '
+           'the second answers like a model built from a list of the same numbers and the caller\'s array is unchanged.',
+    'C07': 'Histories: the element set of a phase after a species is taken out and another put in between two reads; '
+           'two BEP relations built from lists the caller holds (shared, one list for both directions, edited '
+           'afterwards) are each written with exactly the reactions built with them.',
+    'C09': 'History: after any of seven sequences of questions and public re-assignments of descriptor, slope and '
+           'intercept a BEP answers like a BEP freshly built from the settings it shows.',
+    'C10': 'A rank-deficient square composition matrix must not reach the exact solver on its way to least squares '
+           '(square rank-deficient reference set, refitted after append and pop).',
+    'C12': 'For units with a factor but no declared type: from a fresh state they convert with units of at most one '
+           'quantity type, and after one unobserved conversion every answer equals the fresh-state answer.',
+    'C18': 'History: four calls in one state with alternating delimiters answer exactly as the same call does on a '
+           'fresh state.',
+    'C19': 'History: normalisation factors assigned other values between two scans - the second table and stable '
+           'phases use the factors the diagram shows at that moment.',
+}
 
 if __name__ == '__main__':
     main()
